@@ -589,8 +589,8 @@ func DeleteMailbox(db *sql.DB, userID int64, mailboxName string) error {
 	}
 
 	// Also check for hierarchical children by naming convention (mailboxName/*)
-	hierarchyPattern := mailboxName + "/%"
-	err = db.QueryRow("SELECT COUNT(*) FROM mailboxes WHERE user_id = ? AND name LIKE ?", userID, hierarchyPattern).Scan(&count)
+	childLo, childHi := childNameRange(mailboxName)
+	err = db.QueryRow("SELECT COUNT(*) FROM mailboxes WHERE user_id = ? AND name >= ? AND name < ?", userID, childLo, childHi).Scan(&count)
 	if err != nil {
 		return err
 	}
@@ -690,8 +690,8 @@ func RenameMailbox(db *sql.DB, userID int64, oldName, newName string) error {
 
 	// Rename all hierarchical children (mailboxes whose names start with "oldName/")
 	// For example, renaming "foo" to "zap" should also rename "foo/bar" to "zap/bar"
-	hierarchyPattern := oldName + "/%"
-	rows, err := tx.Query("SELECT id, name FROM mailboxes WHERE user_id = ? AND name LIKE ?", userID, hierarchyPattern)
+	childLo, childHi := childNameRange(oldName)
+	rows, err := tx.Query("SELECT id, name FROM mailboxes WHERE user_id = ? AND name >= ? AND name < ?", userID, childLo, childHi)
 	if err != nil {
 		return err
 	}
